@@ -601,7 +601,7 @@ func (t *State) verifyTxRWSets(tx *pb.Transaction) (bool, error) {
 	t.log.Trace("get gas limit from tx", "gasLimit", gasLimit, "txid", hex.EncodeToString(tx.Txid))
 
 	// get gas rate to utxo
-	gasPrice := t.meta.Meta.GetGasPrice()
+	gasPrice := t.meta.GetGasPrice()
 
 	for i, tmpReq := range tx.GetContractRequests() {
 		limits := contract.FromPbLimits(tmpReq.GetResourceLimits())
